@@ -19,7 +19,10 @@ for name in sorted(n for n in os.listdir(S) if os.path.isdir(os.path.join(S, n))
         fp = (c.get("fingerprints") or [""])[0]
         fp = " / ".join(fp.split(" | ")[1:3]) if fp else ""
         return ("**detected** (%s)" % fp) if o.get("detected") else "MISSED"
-    rows.append((name, meta["property"], ", ".join(files), cell(q), cell(t) if t else "-", first.get(name, "detected")))
+    qc = cell(q)
+    if meta.get("superseded_by_fix") and "detected" not in qc:
+        qc = "no longer a breaking change (neutralised by fix %s)" % meta["superseded_by_fix"]["commit"]
+    rows.append((name, meta["property"], ", ".join(files), qc, cell(t) if t else "-", first.get(name, "detected")))
 with open(os.path.join(S, "RESULTS.md"), "w") as f:
     f.write("# Seeded property-breaking changes\n\n"
             "Each directory holds `patch.diff` (a change to mouette that keeps the repository's 622 passing tests passing),\n"
@@ -33,5 +36,6 @@ with open(os.path.join(S, "RESULTS.md"), "w") as f:
     for r in rows:
         f.write("| %s | %s | %s | %s | %s | %s |\n" % r)
     det = sum(1 for r in rows if "detected" in r[3])
-    f.write(f"\n{det} of {len(rows)} detected by the quick tier.\n")
+    sup = sum(1 for r in rows if "neutralised" in r[3])
+    f.write(f"\n{det} of {len(rows)} detected by the quick tier; {sup} no longer break the property on the repaired tree.\n")
 print(len(rows), "rows")
